@@ -1,6 +1,6 @@
 (* C18/ProofsGrid.v -- reciprocal_grid / realspace_grid / post-processing frequencies at R. *)
 From Coq Require Import ZArith QArith Reals Lra Lia List Bool Arith.
-From Verif Require Import Base.Num C18.Model.
+From Verif Require Import Base.Num Gen.FtFormulas C18.Model.
 Import ListNotations.
 Local Open Scope R_scope.
 
@@ -23,8 +23,18 @@ Proof.
   destruct (Nat.Even_or_Odd n) as [[m Hm]|[m Hm]]; [left|right]; exists m; lia.
 Qed.
 
+Lemma g_of_nat_INR n : @g_of_nat R _ n = INR n.
+Proof. unfold g_of_nat; numR. symmetry; apply INR_IZR_INZ. Qed.
 Lemma of_nat_INR n : @of_nat R _ n = INR n.
-Proof. unfold of_nat; numR. symmetry; apply INR_IZR_INZ. Qed.
+Proof. unfold of_nat. apply g_of_nat_INR. Qed.
+Lemma mod_2m m : ((2 * m) mod 2 = 0)%nat.
+Proof. rewrite Nat.mul_comm. apply Nat.mod_mul. lia. Qed.
+Lemma mod_2m1 m : ((2 * m + 1) mod 2 = 1)%nat.
+Proof. rewrite Nat.add_comm, Nat.mul_comm, Nat.mod_add by lia. reflexivity. Qed.
+(* unfold the generated formulas (Gen/FtFormulas.v) down to real arithmetic *)
+Ltac genR := unfold rg_rmin, rg_rmax, rg_half_n, rg_half_rmax, rs_n, rs_stride, rs_max, pp_fmin, pp_fmax,
+                    pp_kernel, pp_arg, pre_arg, pre_shift_even, pre_shift_odd, of_Q in *;
+             cbn [Qnum Qden] in *; rewrite ?g_of_nat_INR, ?of_nat_INR in *; numR.
 
 Lemma INR_2m m : INR (2 * m) = 2 * INR m.
 Proof. rewrite mult_INR. simpl. lra. Qed.
@@ -60,52 +70,52 @@ Proof.
     destruct (parity_cases n) as [[m Hm]|[m Hm]].
     + assert (Hm1 : (1 <= m)%nat) by lia.
       assert (Hmpos : 0 < INR m) by (apply INR_pos_ge1; lia).
-      rewrite Hm in *. rewrite half_even, odd_2m.
-      rewrite stride_ge2 by (cbn [a_n]; lia). cbn [a_n a_min a_max].
-      replace (m + 1 - 1)%nat with m by lia.
-      rewrite !of_nat_INR, INR_2m in *. numR.
+      rewrite Hm in *.
+      rewrite stride_ge2 by (cbn [a_n]; unfold rg_half_n; rewrite half_even; lia). cbn [a_n a_min a_max].
+      unfold rg_half_n, rg_half_rmax. rewrite half_even, mod_2m. cbn [Nat.eqb].
+      replace (m + 1 - 1)%nat with m by lia. genR. rewrite INR_2m in *.
       destruct sh; cbn [andb negb]; field; repeat split; lra.
     + assert (Hm1 : (1 <= m)%nat) by lia.
       assert (Hmpos : 0 < INR m) by (apply INR_pos_ge1; lia).
-      rewrite Hm in *. rewrite half_odd, odd_2m1.
-      rewrite stride_ge2 by (cbn [a_n]; lia). cbn [a_n a_min a_max].
-      replace (m + 1 - 1)%nat with m by lia.
-      rewrite !of_nat_INR, INR_2m1 in *. numR.
+      rewrite Hm in *.
+      rewrite stride_ge2 by (cbn [a_n]; unfold rg_half_n; rewrite half_odd; lia). cbn [a_n a_min a_max].
+      unfold rg_half_n, rg_half_rmax. rewrite half_odd, mod_2m1. cbn [Nat.eqb].
+      replace (m + 1 - 1)%nat with m by lia. genR. rewrite INR_2m1 in *.
       destruct sh; cbn [andb negb]; field; repeat split; lra.
   - rewrite stride_ge2 by (cbn [a_n]; exact Hn). cbn [a_n a_min a_max]. fold n.
-    rewrite !of_nat_INR. rewrite minus_INR by lia. simpl (INR 1).
+    rewrite minus_INR by lia. simpl (INR 1).
     assert (Hn2 : 2 <= INR n) by (change 2 with (INR 2); apply le_INR; exact Hn).
-    numR. destruct sh; field; repeat split; lra.
+    genR. destruct sh; field; repeat split; lra.
 Qed.
 
 (* shape of the reciprocal axis *)
 Lemma recip_n (pi : R) (a : Raxis) (sh half : bool) :
   a_n (recip_axis pi a (Some sh) half) = if half then (a_n a / 2 + 1)%nat else a_n a.
-Proof. unfold recip_axis. destruct half; reflexivity. Qed.
+Proof. unfold recip_axis, rg_half_n. destruct half; reflexivity. Qed.
 
 (* first point of the reciprocal axis *)
 Lemma recip_min (pi : R) (a : Raxis) (sh half : bool) : stride a <> 0 -> (1 <= a_n a)%nat ->
   a_min (recip_axis pi a (Some sh) half) =
   if sh then - (pi / stride a) else - ((1 - 1 / INR (a_n a)) * pi / stride a).
 Proof.
-  intros Hs Hn. unfold recip_axis. rewrite (stride1_nz a Hs), !of_nat_INR.
+  intros Hs Hn. unfold recip_axis. rewrite (stride1_nz a Hs).
   assert (0 < INR (a_n a)) by (apply INR_pos_ge1; lia).
-  destruct half, sh; cbn [a_min]; numR; try reflexivity; field; split; lra.
+  destruct half, sh; cbn [a_min]; genR; field; try split; lra.
 Qed.
 
 (* the halved axis has the parity-dependent number of points that realspace_grid undoes *)
 Lemma real_n_recip n : (1 <= n)%nat -> real_n (n / 2 + 1) (Some (Nat.odd n)) = n.
 Proof.
   intros Hn. destruct (parity_cases n) as [[m Hm]|[m Hm]]; subst n.
-  - rewrite half_even, odd_2m. cbn [real_n]. lia.
-  - rewrite half_odd, odd_2m1. cbn [real_n]. lia.
+  - rewrite half_even, odd_2m. cbn [real_n]. unfold rs_n. lia.
+  - rewrite half_odd, odd_2m1. cbn [real_n]. unfold rs_n. lia.
 Qed.
 (* ... and the wrong parity gives a grid of a different size *)
 Lemma real_n_recip_wrong n : (1 <= n)%nat -> real_n (n / 2 + 1) (Some (negb (Nat.odd n))) <> n.
 Proof.
   intros Hn. destruct (parity_cases n) as [[m Hm]|[m Hm]]; subst n.
-  - rewrite half_even, odd_2m. cbn [real_n negb]. lia.
-  - rewrite half_odd, odd_2m1. cbn [real_n negb]. lia.
+  - rewrite half_even, odd_2m. cbn [real_n negb]. unfold rs_n. lia.
+  - rewrite half_odd, odd_2m1. cbn [real_n negb]. unfold rs_n. lia.
 Qed.
 
 (* ---------- realspace_grid (reciprocal_grid g) = g ---------- *)
@@ -121,14 +131,14 @@ Proof.
   { destruct half; [apply real_n_recip; lia | reflexivity]. }
   rewrite Hrn. destruct a as [mn mx n]. cbn [a_n a_min a_max] in *.
   f_equal.
-  rewrite !of_nat_INR.
   assert (Hst : stride (mk_axis mn mx n) = (mx - mn) / INR (n - 1)) by (apply stride_ge2; exact Hn).
   rewrite Hst in *.
   assert (Hn1 : 0 < INR (n - 1)) by (apply INR_pos_ge1; lia).
   assert (Hn0 : 0 < INR n) by (apply INR_pos_ge1; lia).
   assert (Hd : mx - mn <> 0).
   { intro Hz. apply Hs. rewrite Hz. unfold Rdiv. ring. }
-  numR. field. repeat split; lra.
+  assert (Hm1 : INR (n - 1) = INR n - 1) by (rewrite minus_INR by lia; simpl; lra).
+  genR. rewrite Hm1 in *. field. repeat split; lra.
 Qed.
 
 Lemma real_axis_ok_recip (pi : R) (a : Raxis) (sh half : bool) :
@@ -179,32 +189,32 @@ Proof.
   intros Hpi Hn Hs. rewrite recip_coord by assumption. rewrite recip_n.
   set (n := a_n a) in *. set (s := stride a) in *.
   assert (Hn0 : 0 < INR n) by (apply INR_pos_ge1; lia).
-  unfold freq, fmin_of, fmax_of. rewrite nhalf_R.
+  unfold freq, fmin_of, fmax_of, pp_fmin, pp_fmax.
   destruct half.
   - destruct (parity_cases n) as [[m Hm]|[m Hm]].
     + assert (Hm1 : (1 <= m)%nat) by lia.
       assert (Hmpos : 0 < INR m) by (apply INR_pos_ge1; lia).
-      rewrite Hm in *. rewrite half_even, odd_2m.
+      rewrite Hm in *. rewrite half_even, mod_2m. cbn [Nat.eqb negb].
       destruct (Nat.ltb_spec (m + 1) (2 * m)) as [Hlt|Hge].
       * rewrite linspace_R by lia. replace (m + 1 - 1)%nat with m by lia.
-        rewrite !of_nat_INR, INR_2m in *. numR.
+        genR. rewrite INR_2m in *.
         destruct sh; cbn [andb negb]; field; repeat split; lra.
       * (* m = 1: n = 2, the code takes the non-halfcomplex branch *)
         assert (m = 1)%nat by lia. subst m.
         rewrite linspace_R by lia. cbn [Nat.add Nat.sub Nat.mul] in *.
-        rewrite !of_nat_INR. simpl (INR 2) in *. simpl (INR 1) in *. numR.
+        genR. simpl (INR 2) in *. simpl (INR 1) in *.
         destruct sh; cbn [andb negb]; field; repeat split; lra.
     + assert (Hm1 : (1 <= m)%nat) by lia.
       assert (Hmpos : 0 < INR m) by (apply INR_pos_ge1; lia).
-      rewrite Hm in *. rewrite half_odd, odd_2m1.
+      rewrite Hm in *. rewrite half_odd, mod_2m1. cbn [Nat.eqb negb].
       destruct (Nat.ltb_spec (m + 1) (2 * m + 1)) as [Hlt|Hge]; [|lia].
       rewrite linspace_R by lia. replace (m + 1 - 1)%nat with m by lia.
-      rewrite !of_nat_INR, INR_2m1 in *. numR.
+      genR. rewrite INR_2m1 in *.
       destruct sh; cbn [andb negb]; field; repeat split; lra.
   - rewrite Nat.ltb_irrefl. rewrite linspace_R by exact Hn.
-    rewrite !of_nat_INR. rewrite minus_INR by lia. simpl (INR 1).
+    rewrite minus_INR by lia. simpl (INR 1).
     assert (Hn2 : 2 <= INR n) by (change 2 with (INR 2); apply le_INR; exact Hn).
-    numR. destruct sh; field; repeat split; lra.
+    genR. destruct sh; field; repeat split; lra.
 Qed.
 
 (* ---------- N-d: the grid functions act axis by axis ---------- *)
@@ -306,10 +316,11 @@ Proof.
       rewrite El. unfold recip_axis, real_axis. cbn [real_n].
       specialize (Hpl j Hj Hnin).
       destruct (nth j g dax) as [mn mx n] eqn:En. unfold plain_axis in Hpl. cbn [a_n a_min a_max] in *.
-      f_equal. rewrite of_nat_INR.
+      f_equal.
       destruct Hpl as [Hn|[Hn Hm]].
       * rewrite stride_ge2 by (cbn [a_n]; exact Hn). cbn [a_n a_min a_max].
         assert (0 < INR (n - 1)) by (apply INR_pos_ge1; lia).
-        numR. field. lra.
-      * subst n mx. unfold stride. cbn [a_n Nat.leb Nat.sub]. simpl (INR 0). numR. ring.
+        assert (Hm1 : INR (n - 1) = INR n - 1) by (rewrite minus_INR by lia; simpl; lra).
+        genR. rewrite Hm1 in *. field. lra.
+      * subst n mx. unfold stride. cbn [a_n Nat.leb]. genR. simpl (INR 1). lra.
 Qed.
